@@ -377,100 +377,68 @@ Proof.
   intros Hp [os ->]. revert s Hp. induction os as [|o os IH]; intros s Hp; simpl; auto.
 Qed.
 
+Ltac fin Hp := cbn [fst snd]; split; [exact Hp|split; [auto using steps_refl|]];
+  try (intros out Ho; discriminate Ho);
+  try (match goal with |- forall out, match ?fs with _ => _ end = _ -> _ => destruct fs; intros out Ho; try discriminate Ho end).
+
 Lemma read_loop_ind fuel : forall s f off len nr acc fs,
   P s -> Q f s acc ->
   let r := read_loop H fuel s f off len nr acc fs in
   P (fst r) /\ steps s (fst r) /\ (forall out, snd r = ROk out -> Q f (fst r) out).
 Proof.
   induction fuel as [|fuel IH]; intros s f off len nr acc fs Hp Hq; simpl.
-  - repeat split; auto using steps_refl. discriminate.
+  - fin Hp.
   - destruct (len <=? nr).
-    { simpl. repeat split; auto using steps_refl. destruct fs; intros out Ho; inversion Ho; subst; auto. }
+    { fin Hp. inversion Ho; subst; auto. }
     destruct (chunk_for (s_toc s) f (off + nr)) as [[i c]|] eqn:Ec.
-    2:{ simpl. repeat split; auto using steps_refl. destruct fs; intros out Ho; inversion Ho; subst; auto. }
+    2:{ fin Hp. inversion Ho; subst; auto. }
     apply chunk_for_at in Ec.
-    set (lower := positive (off - c_off c)). set (upper := positive (c_off c + c_size c - (off + len))).
+    destruct ((c_off c <? 0) || (c_off c + c_size c <? c_off c) || (off + nr <? c_off c) || (c_off c + c_size c <=? off + nr)).
+    { fin Hp. }
+    set (lower := off + nr - c_off c). set (upper := positive (c_off c + c_size c - (off + len))).
     set (expected := c_size c - upper - lower).
     destruct ((expected <? 0) || (len <? nr + expected)).
-    { simpl. repeat split; auto using steps_refl. discriminate. }
-    destruct (get (s_cache s) (key_of f c)) as [b|] eqn:Eg.
-    + destruct (zlen (slice lower expected b) =? expected).
-      * apply IH; auto. eapply Q_hit; eauto.
-      * (* cached entry too short: treated as a miss *)
-        destruct fs as [|ft fs']; [simpl; repeat split; auto using steps_refl; discriminate|].
-        destruct ((lower =? 0) && (upper =? 0)).
-        -- destruct (len <? nr + c_size c); [simpl; repeat split; auto using steps_refl; discriminate|].
-           destruct (od_fetch H s ft) as [s1 [[n ip]|]] eqn:Ef.
-           ++ assert (Hs1 : steps s s1) by (pose proof (od_fetch_steps s ft) as X; rewrite Ef in X; exact X).
-              assert (Hp1 : P s1) by (eapply P_steps; eauto).
-              assert (Et : s_toc s1 = s_toc s) by (destruct Hs1 as [os ->]; apply exec_toc).
-              destruct (od_core H s1 false f i ip) as [s2 r] eqn:Eo.
-              assert (Hs2 : steps s1 s2) by (pose proof (od_core_steps s1 false f i ip) as X; rewrite Eo in X; exact X).
-              destruct r.
-              ** assert (Hq2 : Q f s2 (acc ++ slice 0 n ip)).
-                 { pose proof (Q_miss f s1 acc c i ip 0 n Hp1 (Q_steps f s s1 acc Hp Hs1 Hq)) as X.
-                   rewrite Et in X. rewrite Eo in X. simpl in X. apply X; auto. }
-                 destruct (IH s2 f off len (nr + n) (acc ++ slice 0 n ip) fs' (P_steps _ _ Hp1 Hs2) Hq2) as [A [B C]].
-                 repeat split; auto. eapply steps_trans; [exact Hs1|]. eapply steps_trans; [exact Hs2|exact B].
-              ** simpl. repeat split; [eapply P_steps; eauto|eapply steps_trans; eauto|]. destruct fs'; discriminate.
-              ** simpl. repeat split; [eapply P_steps; eauto|eapply steps_trans; eauto|]. destruct fs'; discriminate.
-           ++ assert (Hs1 : steps s s1) by (pose proof (od_fetch_steps s ft) as X; rewrite Ef in X; exact X).
-              simpl. repeat split; [eapply P_steps; eauto|auto|]. destruct fs'; discriminate.
-        -- destruct (od_fetch H s ft) as [s1 [[n ip]|]] eqn:Ef.
-           ++ assert (Hs1 : steps s s1) by (pose proof (od_fetch_steps s ft) as X; rewrite Ef in X; exact X).
-              assert (Hp1 : P s1) by (eapply P_steps; eauto).
-              assert (Et : s_toc s1 = s_toc s) by (destruct Hs1 as [os ->]; apply exec_toc).
-              destruct (od_core H s1 false f i ip) as [s2 r] eqn:Eo.
-              assert (Hs2 : steps s1 s2) by (pose proof (od_core_steps s1 false f i ip) as X; rewrite Eo in X; exact X).
-              destruct r.
-              ** destruct (zlen (slice lower expected ip) =? expected).
-                 --- assert (Hq2 : Q f s2 (acc ++ slice lower expected ip)).
-                     { pose proof (Q_miss f s1 acc c i ip lower expected Hp1 (Q_steps f s s1 acc Hp Hs1 Hq)) as X.
-                       rewrite Et in X. rewrite Eo in X. simpl in X. apply X; auto. }
-                     destruct (IH s2 f off len (nr + expected) (acc ++ slice lower expected ip) fs' (P_steps _ _ Hp1 Hs2) Hq2) as [A [B C]].
-                     repeat split; auto. eapply steps_trans; [exact Hs1|]. eapply steps_trans; [exact Hs2|exact B].
-                 --- simpl. repeat split; [eapply P_steps; eauto|eapply steps_trans; eauto|]. destruct fs'; discriminate.
-              ** simpl. repeat split; [eapply P_steps; eauto|eapply steps_trans; eauto|]. destruct fs'; discriminate.
-              ** simpl. repeat split; [eapply P_steps; eauto|eapply steps_trans; eauto|]. destruct fs'; discriminate.
-           ++ assert (Hs1 : steps s s1) by (pose proof (od_fetch_steps s ft) as X; rewrite Ef in X; exact X).
-              simpl. repeat split; [eapply P_steps; eauto|auto|]. destruct fs'; discriminate.
-    + destruct fs as [|ft fs']; [simpl; repeat split; auto using steps_refl; discriminate|].
-      destruct ((lower =? 0) && (upper =? 0)).
-      -- destruct (len <? nr + c_size c); [simpl; repeat split; auto using steps_refl; discriminate|].
-         destruct (od_fetch H s ft) as [s1 [[n ip]|]] eqn:Ef.
-         ++ assert (Hs1 : steps s s1) by (pose proof (od_fetch_steps s ft) as X; rewrite Ef in X; exact X).
-            assert (Hp1 : P s1) by (eapply P_steps; eauto).
-            assert (Et : s_toc s1 = s_toc s) by (destruct Hs1 as [os ->]; apply exec_toc).
-            destruct (od_core H s1 false f i ip) as [s2 r] eqn:Eo.
-            assert (Hs2 : steps s1 s2) by (pose proof (od_core_steps s1 false f i ip) as X; rewrite Eo in X; exact X).
-            destruct r.
-            ** assert (Hq2 : Q f s2 (acc ++ slice 0 n ip)).
-               { pose proof (Q_miss f s1 acc c i ip 0 n Hp1 (Q_steps f s s1 acc Hp Hs1 Hq)) as X.
-                 rewrite Et in X. rewrite Eo in X. simpl in X. apply X; auto. }
-               destruct (IH s2 f off len (nr + n) (acc ++ slice 0 n ip) fs' (P_steps _ _ Hp1 Hs2) Hq2) as [A [B C]].
-               repeat split; auto. eapply steps_trans; [exact Hs1|]. eapply steps_trans; [exact Hs2|exact B].
-            ** simpl. repeat split; [eapply P_steps; eauto|eapply steps_trans; eauto|]. destruct fs'; discriminate.
-            ** simpl. repeat split; [eapply P_steps; eauto|eapply steps_trans; eauto|]. destruct fs'; discriminate.
-         ++ assert (Hs1 : steps s s1) by (pose proof (od_fetch_steps s ft) as X; rewrite Ef in X; exact X).
-            simpl. repeat split; [eapply P_steps; eauto|auto|]. destruct fs'; discriminate.
-      -- destruct (od_fetch H s ft) as [s1 [[n ip]|]] eqn:Ef.
-         ++ assert (Hs1 : steps s s1) by (pose proof (od_fetch_steps s ft) as X; rewrite Ef in X; exact X).
-            assert (Hp1 : P s1) by (eapply P_steps; eauto).
-            assert (Et : s_toc s1 = s_toc s) by (destruct Hs1 as [os ->]; apply exec_toc).
-            destruct (od_core H s1 false f i ip) as [s2 r] eqn:Eo.
-            assert (Hs2 : steps s1 s2) by (pose proof (od_core_steps s1 false f i ip) as X; rewrite Eo in X; exact X).
-            destruct r.
-            ** destruct (zlen (slice lower expected ip) =? expected).
-               --- assert (Hq2 : Q f s2 (acc ++ slice lower expected ip)).
-                   { pose proof (Q_miss f s1 acc c i ip lower expected Hp1 (Q_steps f s s1 acc Hp Hs1 Hq)) as X.
-                     rewrite Et in X. rewrite Eo in X. simpl in X. apply X; auto. }
-                   destruct (IH s2 f off len (nr + expected) (acc ++ slice lower expected ip) fs' (P_steps _ _ Hp1 Hs2) Hq2) as [A [B C]].
-                   repeat split; auto. eapply steps_trans; [exact Hs1|]. eapply steps_trans; [exact Hs2|exact B].
-               --- simpl. repeat split; [eapply P_steps; eauto|eapply steps_trans; eauto|]. destruct fs'; discriminate.
-            ** simpl. repeat split; [eapply P_steps; eauto|eapply steps_trans; eauto|]. destruct fs'; discriminate.
-            ** simpl. repeat split; [eapply P_steps; eauto|eapply steps_trans; eauto|]. destruct fs'; discriminate.
-         ++ assert (Hs1 : steps s s1) by (pose proof (od_fetch_steps s ft) as X; rewrite Ef in X; exact X).
-            simpl. repeat split; [eapply P_steps; eauto|auto|]. destruct fs'; discriminate.
+    { fin Hp. }
+    match goal with |- context [match ?h with Some piece => _ | None => _ end] =>
+      destruct h as [piece|] eqn:Eh end.
+    { (* served from the cache *)
+      destruct (get (s_cache s) (key_of f c)) as [b|] eqn:Eg; [|discriminate Eh].
+      destruct (zlen (slice lower expected b) =? expected); [|discriminate Eh].
+      inversion Eh; subst piece. apply IH; auto. eapply Q_hit; eauto. }
+    clear Eh.
+    destruct fs as [|ft fs']; [fin Hp|].
+    destruct (od_fetch H s ft) as [s1 [[n ip]|]] eqn:Ef.
+    2:{ assert (Hs1 : steps s s1) by (pose proof (od_fetch_steps s ft) as X; rewrite Ef in X; exact X).
+        destruct ((lower =? 0) && (upper =? 0)); [destruct (len <? nr + c_size c); [fin Hp|]|];
+          fin (P_steps _ _ Hp Hs1). }
+    assert (Hs1 : steps s s1) by (pose proof (od_fetch_steps s ft) as X; rewrite Ef in X; exact X).
+    assert (Hp1 : P s1) by (eapply P_steps; eauto).
+    assert (Et : s_toc s1 = s_toc s) by (destruct Hs1 as [os ->]; apply exec_toc).
+    assert (Ec1 : chunk_at (s_toc s1) f i = Some c) by (rewrite Et; exact Ec).
+    pose proof (Q_steps f s s1 acc Hp Hs1 Hq) as Hq1.
+    destruct ((lower =? 0) && (upper =? 0)).
+    + destruct (len <? nr + c_size c); [fin Hp|].
+      destruct (od_core H s1 false f i ip) as [s2 r] eqn:Eo.
+      assert (Hs2 : steps s1 s2) by (pose proof (od_core_steps s1 false f i ip) as X; rewrite Eo in X; exact X).
+      assert (Hs02 : steps s s2) by (eapply steps_trans; eauto).
+      assert (Hp2 : P s2) by (eapply P_steps; eauto).
+      destruct r; [|fin Hp2|fin Hp2].
+      destruct (n =? 0).
+      * fin Hp2. inversion Ho; subst. eapply Q_steps; [exact Hp1|exact Hs2|exact Hq1].
+      * assert (Hq2 : Q f s2 (acc ++ slice 0 n ip)).
+        { pose proof (Q_miss f s1 acc c i ip 0 n Hp1 Hq1 Ec1) as X. rewrite Eo in X. apply X. reflexivity. }
+        destruct (IH s2 f off len (nr + n) (acc ++ slice 0 n ip) fs' Hp2 Hq2) as [A [B C]].
+        split; [exact A|split; [eapply steps_trans; eauto|exact C]].
+    + destruct (od_core H s1 false f i ip) as [s2 r] eqn:Eo.
+      assert (Hs2 : steps s1 s2) by (pose proof (od_core_steps s1 false f i ip) as X; rewrite Eo in X; exact X).
+      assert (Hs02 : steps s s2) by (eapply steps_trans; eauto).
+      assert (Hp2 : P s2) by (eapply P_steps; eauto).
+      destruct r; [|fin Hp2|fin Hp2].
+      destruct (zlen (slice lower expected ip) =? expected); [|fin Hp2].
+      assert (Hq2 : Q f s2 (acc ++ slice lower expected ip)).
+      { pose proof (Q_miss f s1 acc c i ip lower expected Hp1 Hq1 Ec1) as X. rewrite Eo in X. apply X. reflexivity. }
+      destruct (IH s2 f off len (nr + expected) (acc ++ slice lower expected ip) fs' Hp2 Hq2) as [A [B C]].
+      split; [exact A|split; [eapply steps_trans; eauto|exact C]].
 Qed.
 End ReadLoop.
 
